@@ -723,6 +723,10 @@ def build_plan(tier, seed):
         # one case per unsafe site family, executed under Miri (C02): gapless and with holes, runs touching both type limits
         pl.mini(decls=[("i8", [-128, -127, -3, -1, 127]), ("u8", [0, 1, 2, 3])], level="light", str_cap=3, pairs_cap=9,
                 kappas=("match_nab", "table_table", "auto", "range"))
+    elif tier == "miri_thorough":
+        pl.mini(decls=[("i8", [-128, -127, -3, -1, 127]), ("u8", [0, 1, 2, 3]), ("i16", [-32768, 5, 6, 32767]), ("u64", [0, 7, 9223372036854775807]),
+                       ("i128", [-9223372036854775808, -1, 0]), ("usize", [3]), ("u8", [0, 2, 4, 6, 8, 10, 12, 14, 255]), ("i32", [-2, -1, 0, 1, 2, 3])],
+                level="light", str_cap=4, pairs_cap=12, kappas=None)
     elif tier == "mini":
         # a handful of cases covering every unsafe site and iterator representation: used by `setup`
         # (binding self-test) and as the Miri corpus
